@@ -137,12 +137,44 @@ Proof.
   repeat split; assumption.
 Qed.
 
-(* the locks are only ever nested in one order: a function that takes a lock calls, while
-   holding it, only functions from which no lock-taking function other than the allocator's
-   leaf locks is reachable ... stated as: the set of lock-taking functions reachable under a
-   lock is listed here and is acyclic by inspection of this list *)
-Definition locks_under_lock : list (string * list string) :=
-  map (fun f => (g_name f,
-                 filter (fun n => prop_of g_locks n)
-                        (flat_map reach_of (g_under f))))
-      (filter (fun f => negb (match g_under f with [] => true | _ => false end)) g_funcs).
+(* ---------------- lock order (C05 / C18: no deadlock on gkvlite's own locks) ---------------- *)
+
+(* g_lock_order lists every pair (A, B) such that lock B is acquired -- directly or anywhere below a callee --
+   while lock A is held.  The order below is a linear extension of it, so the relation is acyclic and no two
+   goroutines can wait for each other's gkvlite locks. *)
+Definition lock_rank : list string :=
+  ["Store.m"; "rootLock"; "freeNodeLock"; "freeNodeLocLock"; "freeRootNodeLocLock"; "itemLocGL"; "nodeLocGL"].
+
+Fixpoint index_of (n : string) (l : list string) : option nat :=
+  match l with
+  | [] => None
+  | x :: xs => if String.eqb n x then Some O else option_map S (index_of n xs)
+  end.
+
+Definition forward (e : string * string) : bool :=
+  match index_of (fst e) lock_rank, index_of (snd e) lock_rank with
+  | Some i, Some j => Nat.ltb i j
+  | _, _ => false
+  end.
+
+Lemma lock_order_checked : forallb forward g_lock_order = true.
+Proof. vm_compute. reflexivity. Qed.
+
+Theorem lock_order_acyclic : forall a b, In (a, b) g_lock_order ->
+  exists i j, index_of a lock_rank = Some i /\ index_of b lock_rank = Some j /\ (i < j)%nat.
+Proof.
+  intros a b H. pose proof lock_order_checked as Hc. rewrite forallb_forall in Hc.
+  specialize (Hc (a, b) H). unfold forward in Hc. cbn [fst snd] in Hc.
+  destruct (index_of a lock_rank) as [i|]; [|discriminate].
+  destruct (index_of b lock_rank) as [j|]; [|discriminate].
+  exists i, j. repeat split. apply PeanoNat.Nat.ltb_lt. exact Hc.
+Qed.
+
+(* hence no cycle: along any chain of nested acquisitions the rank strictly increases *)
+Lemma lock_chain_increases : forall l a b, In (a, b) g_lock_order -> In (b, l) g_lock_order -> a <> l.
+Proof.
+  intros l a b H1 H2 He. subst l.
+  destruct (lock_order_acyclic _ _ H1) as (i & j & Hi & Hj & Hlt).
+  destruct (lock_order_acyclic _ _ H2) as (j' & i' & Hj' & Hi' & Hlt').
+  rewrite Hi in Hi'. rewrite Hj in Hj'. injection Hi' as <-. injection Hj' as <-. lia.
+Qed.
